@@ -228,14 +228,14 @@ def coq_eval(prefix, jobs, timeout=900):
                 body.append("Definition q%d%s : list step := %s." % (k, lab, txt))
                 if lab == "w":
                     body.append('Eval vm_compute in (%d%%nat, "w", check_bounded S%d q%dw %d %d, seq_len q%dw).' %
-                                (k, k, k, int(j["len"]), int(j["sk"]), k))
+                                (k, k, k, max(0, int(j["len"])), max(0, int(j["sk"])), k))
                 else:
                     body.append('Eval vm_compute in (%d%%nat, "%s", check S%d q%d%s, seq_len q%d%s).' %
                                 (k, lab, k, k, lab, k, lab))
             any_case = True
         if any_case:
             files.append(("%s_%d" % (prefix, f0 // per), "\n".join(body) + "\n"))
-    out = common.run_cases_parallel(files, timeout=timeout) if files else {}
+    out = c04.run_case_files(files, timeout=timeout) if files else {}
     broken = []
     for name, (ok, txt) in sorted(out.items()):
         if not ok:
@@ -261,16 +261,6 @@ def coq_eval(prefix, jobs, timeout=900):
                         res[k]["witness"] = v
                     else:
                         res[k]["others"][lab] = v
-    for name, _ in files:
-        for ext in (".v", ".vo", ".vok", ".vos", ".glob"):
-            try:
-                os.remove(os.path.join(common.COQ, "Cases", name + ext))
-            except OSError:
-                pass
-        try:
-            os.remove(os.path.join(common.COQ, "Cases", "." + name + ".aux"))
-        except OSError:
-            pass
     return res, broken
 
 
@@ -324,13 +314,14 @@ def check(run):
                    {"theorem": "Props/C16.v", "detail": str(run.proof_broken)[:2000],
                     "cmd": "cd /verif/coq && make Props/C16.vo"}, found_input=False)
     thorough = run.tier == "thorough"
-    nblocks = 900 if thorough else 150
-    nhand = 3000 if thorough else 400
+    nblocks = 400 if thorough else 120
+    nhand = 1500 if thorough else 400
     budget = 400000 if thorough else 60000
     option_sets = c04.OPTION_SETS + (c04.EXTRA_OPTION_SETS if thorough else [])
     contracts = c04.CONTRACTS_THOROUGH[:2] if thorough else c04.CONTRACT_QUICK
     t0 = time.time()
-    fe, st1 = c04.collect_frontend(run, rng, nblocks, option_sets, contracts, pid=PID)
+    fe, st1 = c04.collect_frontend(run, rng, nblocks, option_sets, contracts, pid=PID,
+                                   contract_option_sets=c04.OPTION_SETS[:4] if thorough else [c04.OPTION_SETS[0], c04.OPTION_SETS[1], c04.OPTION_SETS[3]])
     run.log("front end: %d specifications from %d block runs (%.0fs) %s" %
             (len(fe), st1["blocks"], time.time() - t0, st1["frontend_status"]))
     hb, st2 = c04.collect_hand(run, rng, nhand)
@@ -486,7 +477,11 @@ def check(run):
             dist["bounds"]["unknown"] += 1
             continue
         dist["bounds"]["infeasible:" + culprit] += 1
-        key = {"check": "bounds_feasible", "bound": culprit, "rules_applied": bool(s.get("rules_applied"))}
+        present = set(i["disasm"] for i in s["user_instrs"])
+        dropped3 = any(op in ("ADDMOD", "MULMOD") and op not in present
+                       for op in str(s.get("original_instrs", "")).split())
+        key = {"check": "bounds_feasible", "bound": culprit, "rules_applied": bool(s.get("rules_applied")),
+               "dead_3ary_dropped": dropped3}
         what = ("no sequence realizes the specification within init_progr_len=%d, max_sk_sz=%d (%s; min_length_instrs=%s); "
                 "block %r opts %s rules %s" % (L, SK, cert, s.get("min_length_instrs"), s.get("original_instrs"),
                                                c["opts"], s.get("rules")))
